@@ -372,6 +372,46 @@ fn run_child_case(c: &C03Child, w: &WCtx) -> Result<Report, Failure> {
 
 pub struct C03;
 
+// fault + retry variant: a refused flush/sync (RLIMIT_FSIZE in a child process, the C16 machinery),
+// then -- limit lifted, optionally further updates -- a flush/sync that returns Ok: a sync point like
+// any other.  Only failures of the Ok-returning calls are claimed here; how the refusal itself is
+// reported is C16's business.
+fn n_fault(tier: Tier) -> u64 {
+    tier.pick(240, 1500)
+}
+
+fn fault_case(tier: Tier, seed: u64, index: u64, w: &WCtx) -> Result<super::c16::C16Case, Failure> {
+    let r = case_seed(seed, "C03", index);
+    let n16 = super::c16::C16.n_cases(tier);
+    let mut c = super::c16::case_of(tier, r % n16, w)?;
+    c.mid = if (r >> 40) % 3 == 0 { 0 } else { 1 };
+    Ok(c)
+}
+
+fn run_fault_case(c: &super::c16::C16Case, w: &WCtx) -> Result<Report, Failure> {
+    let mut rep = Report::default();
+    match super::c16::run_c16_stage(c, w) {
+        Ok(r) => {
+            if r.has("call_err_under_limit") {
+                rep.bump("retry_after_refused_sync_checked");
+                if c.mid > 0 {
+                    rep.bump("retry_after_refused_sync_with_updates_in_between");
+                }
+            } else {
+                rep.bump("ok_under_limit_checked");
+            }
+        }
+        Err((f, st)) => match st.as_str() {
+            "recovered" | "ok-under-limit" | "left-behind" => {
+                return Err(Failure::new("durability", None, format!("(refused sync, then a sync that returned Ok) {}", f.msg)))
+            }
+            "infra" => return Err(f),
+            _ => rep.bump("failure_outside_c03_ignored"),
+        },
+    }
+    Ok(rep)
+}
+
 fn n_kill(tier: Tier) -> u64 {
     tier.pick(1500, 15000)
 }
@@ -387,7 +427,7 @@ impl Prop for C03 {
         "fault_enumeration"
     }
     fn rule(&self) -> String {
-        format!("{} CHILD VARIANTS: (kill) the history is executed by a spawned writer process that announces every sync point; the parent SIGKILLs it right after a generated one of them returned Ok and then decodes and opens the directory left behind: it must equal the model state at that point. (strace) the writer runs to the end under `strace -f -y -e trace=fsync,fdatasync,access`; for every sync_data/sync_all the files that had changed on disk must show a real fdatasync/fsync (sync_all: fsync) system call between the call's begin/end markers. Labels killed_at_sync_point / strace_sync_confirmed count these.", prop().rule)
+        format!("{} CHILD VARIANTS: (kill) the history is executed by a spawned writer process that announces every sync point; the parent SIGKILLs it right after a generated one of them returned Ok and then decodes and opens the directory left behind: it must equal the model state at that point. (strace) the writer runs to the end under `strace -f -y -e trace=fsync,fdatasync,access`; for every sync_data/sync_all the files that had changed on disk must show a real fdatasync/fsync (sync_all: fsync) system call between the call's begin/end markers. Labels killed_at_sync_point / strace_sync_confirmed count these. (fault + retry) in a child process a flush/sync is refused by RLIMIT_FSIZE = T (shapes, calls and thresholds of the C16 enumeration, drawn by the seed), the limit is lifted, in two thirds of the cases further updates are made, and the next flush/sync (another call kind) returns Ok: the files on disk, and the directory left behind when the process then exits without running destructors, must hold the model state; label retry_after_refused_sync_checked.", prop().rule)
     }
     fn assumptions(&self) -> Vec<String> {
         let mut a = prop().assumptions();
@@ -395,7 +435,7 @@ impl Prop for C03 {
         a
     }
     fn n_cases(&self, tier: Tier) -> u64 {
-        prop().n_cases(tier) + n_kill(tier) + n_strace(tier)
+        prop().n_cases(tier) + n_kill(tier) + n_strace(tier) + n_fault(tier)
     }
     fn timeout_s(&self, tier: Tier) -> u64 {
         tier.pick(90, 180)
@@ -404,6 +444,37 @@ impl Prop for C03 {
         let nh = prop().n_cases(tier);
         if index < nh {
             return prop().run_case(tier, seed, index, w);
+        }
+        if index >= nh + n_kill(tier) + n_strace(tier) {
+            let mut out = CaseOut {
+                index,
+                evals: 1,
+                profile: w.profile.clone(),
+                ..Default::default()
+            };
+            let c = match fault_case(tier, seed, index, w) {
+                Ok(c) => c,
+                Err(f) => {
+                    out.failure = Some(f);
+                    return out;
+                }
+            };
+            match run_fault_case(&c, w) {
+                Ok(rep) => {
+                    if rep.has("retry_after_refused_sync_checked") {
+                        out.nontrivial.push(digest_of(&c));
+                    }
+                    out.labels = rep.labels;
+                    if index % 31 == 5 {
+                        out.sample = Some(json!({ "Fault": c }));
+                    }
+                }
+                Err(f) => {
+                    out.failure = Some(f);
+                    out.case = Some(json!({ "Fault": c }));
+                }
+            }
+            return out;
         }
         let kill = index < nh + n_kill(tier);
         let st = child_strategy(tier, index, kill);
@@ -431,10 +502,18 @@ impl Prop for C03 {
         if index < nh {
             return prop().gen_case(tier, seed, index);
         }
+        if index >= nh + n_kill(tier) + n_strace(tier) {
+            return json!({"Fault": "drawn at run time (needs the file sizes of a dry run)"});
+        }
         let kill = index < nh + n_kill(tier);
         json!({"Child": draw(&child_strategy(tier, index, kill), case_seed(seed, "C03", index))})
     }
     fn replay(&self, case: &Value, w: &WCtx) -> Result<Report, Failure> {
+        if let Some(c) = case.get("Fault") {
+            let c: super::c16::C16Case = serde_json::from_value(c.clone())
+                .map_err(|e| Failure::new("infra", None, format!("bad replay file: {e}")))?;
+            return run_fault_case(&c, w);
+        }
         if let Some(c) = case.get("Child") {
             let c: C03Child = serde_json::from_value(c.clone())
                 .map_err(|e| Failure::new("infra", None, format!("bad replay file: {e}")))?;
